@@ -85,7 +85,12 @@ def check_case(ctx, case):
     r = parse(text)
     kf = "C16:set-line-inside-unsupported-statement" if case.get("feature") == "set_line" else None
     if r[0] == "exc":
-        ctx.violation("exception", dict(case, script=text), {"exception": r[1], "message": r[2]}, kf=None)
+        k = None
+        if case.get("feature") == "lexer_reject" and r[1] == "DDLParserError" and "Unknown symbol" in r[2]:
+            # listed defect: a character the lexer does not know raises although silent=True; any *other* outcome than this
+            # exception or the correct result (e.g. the statements after it vanishing) is an ordinary violation
+            k = "C16:lexer-error-raises-when-silent"
+        ctx.violation("exception", dict(case, script=text), {"exception": r[1], "message": r[2]}, kf=k)
         return
     got = entities(r[1])
     if got != expected:
@@ -187,6 +192,29 @@ def run_shard(ctx):
     for j in range(ctx.budget(24, 200)):
         groups = [G.gen_group(rng, rng.choice(kinds), q) for q in range(2)]
         check_case(ctx, {"gen": "set_line", "feature": "set_line", "groups": groups, "inserts": {str(rng.randrange(3)): [rng.choice(G.SET_LINE)]}})
+    # (5) the same table name produced twice (re-run of CREATE TABLE IF NOT EXISTS, CREATE .. DROP): ALTER / INDEX statements written
+    #     between the two belong to the definition that precedes them
+    for j in range(ctx.budget(64, 1500)):
+        nm = rng.choice(["t", "s.orders", "Items", '"T 1"'])
+        cols = "a int, b int"
+        g1 = ["CREATE TABLE %s (%s);" % (nm, cols)]
+        for q in range(rng.randint(1, 3)):
+            g1.append(rng.choice(["ALTER TABLE %s ADD c%d varchar(10);" % (nm, q), "CREATE INDEX ix%d_%d ON %s (a);" % (j, q, nm),
+                                  "ALTER TABLE %s ADD CONSTRAINT ck%d CHECK (a > %d);" % (nm, q, q), "CREATE UNIQUE INDEX ux%d_%d ON %s (b DESC);" % (j, q, nm)]))
+        g2 = [rng.choice(["DROP TABLE %s;" % nm, "CREATE TABLE IF NOT EXISTS %s (%s);" % (nm, cols), "CREATE TABLE %s (x int);" % nm])]
+        groups = [g1, g2]
+        if rng.random() < 0.5:
+            groups.append(G.gen_group(rng, rng.choice(kinds), 7))
+        inserts = {str(rng.randrange(len(g1) + 2)): [rng.choice(uns)[1]]} if rng.random() < 0.4 else {}
+        check_case(ctx, {"gen": "redefinition", "groups": groups, "inserts": inserts})
+        ctx.obs["redefinition_cases"] += 1
+    # (6) an unsupported statement that the *lexer* rejects (known finding: it raises even when silent)
+    for j in range(ctx.budget(32, 400)):
+        groups = [G.gen_group(rng, rng.choice(kinds), q) for q in range(rng.randint(2, 3))]
+        n_items = sum(len(g) for g in groups)
+        bad = rng.choice(["SELECT a ^ b FROM t;", "UPDATE t SET a = a ^ 1;", "SELECT 2 ^ 10;", "CALL p(1 ^ 2);"])
+        check_case(ctx, {"gen": "lexer_reject", "feature": "lexer_reject", "groups": groups, "inserts": {str(rng.randrange(n_items + 1)): [bad]}})
+        ctx.obs["lexer_reject_cases"] += 1
     # (4) corpus concatenations
     for case in corpus_cases(ctx, ctx.budget(300, 6000)):
         check_case(ctx, case)
